@@ -70,6 +70,7 @@ class RegexOpCode(IntEnum):
     SET_POS = auto()  # Save current position to register
     CHECK_ADVANCE = auto()  # Check that position advanced
     RESET_IF_NO_ADV = auto()  # Reset captures if position didn't advance
+    CLEAR_POS = auto()  # Forget the position saved in a register
 
     # Terminal
     MATCH = auto()  # Successful match
@@ -145,6 +146,7 @@ OPCODE_INFO = {
         3,
         "Reset captures if position unchanged (args: reg_idx, start_group, end_group)",
     ),
+    RegexOpCode.CLEAR_POS: ("CLEAR_POS", 1, "Forget saved position (arg: reg_idx)"),
     RegexOpCode.MATCH: ("MATCH", 0, "Successful match"),
 }
 
